@@ -337,9 +337,99 @@ fn gen_small(src: &mut Src, _t: Tier) -> Case {
     v[(src.raw() as usize).min(v.len() - 1)].clone()
 }
 
+/// Second bounded-exhaustive slice, for the flags: atoms {a, A, LF, ., [a], [^a], \w, ^, $, \b, \B, \1}, five
+/// quantifier shapes, pairs of items and the six group kinds around an atom or a two-way alternative, under ALL
+/// 16 combinations of i, m, s x {legacy, u} (v for a quarter of them), on all haystacks over {a, A, LF} up to length 3.
+pub fn flag_slice() -> &'static Vec<Case> {
+    static S: std::sync::OnceLock<Vec<Case>> = std::sync::OnceLock::new();
+    S.get_or_init(|| {
+        let t: Vec<Node> = vec![
+            Node::Lit(0x61),
+            Node::Lit(0x41),
+            Node::Lit(0x0A),
+            Node::Dot,
+            Node::Class { neg: false, items: vec![ClassItem::Ch(0x61)] },
+            Node::Class { neg: true, items: vec![ClassItem::Ch(0x61)] },
+            Node::Esc(b'w'),
+            Node::Bol,
+            Node::Eol,
+            Node::Wb,
+            Node::NotWb,
+            Node::BackRef(0),
+        ];
+        const Q5: &[(u32, Option<u32>, bool)] = &[(0, Some(1), false), (0, None, false), (1, None, false), (0, None, true), (2, Some(2), false)];
+        let mut i1: Vec<Node> = t.clone();
+        for x in t.iter().filter(|x| quantifiable(x)) {
+            for (min, max, lazy) in Q5 {
+                i1.push(Node::Quant { body: Box::new(x.clone()), min: *min, max: *max, lazy: *lazy, braces: false });
+            }
+        }
+        let mut nodes: Vec<Node> = vec![];
+        for x in &i1 {
+            for y in &i1 {
+                nodes.push(Node::Cat(vec![x.clone(), y.clone()]));
+            }
+        }
+        for x in &t {
+            for y in &t {
+                let bodies = [x.clone(), Node::Alt(vec![x.clone(), y.clone()])];
+                for (bi, b) in bodies.iter().enumerate() {
+                    if bi == 0 && !matches!(y, Node::Lit(0x61)) {
+                        // the single-atom bodies once per x
+                        continue;
+                    }
+                    let groups = vec![
+                        Node::Group { name: None, body: Box::new(b.clone()) },
+                        Node::Look { behind: false, neg: false, body: Box::new(b.clone()) },
+                        Node::Look { behind: true, neg: false, body: Box::new(b.clone()) },
+                        Node::Look { behind: false, neg: true, body: Box::new(b.clone()) },
+                        Node::Look { behind: true, neg: true, body: Box::new(b.clone()) },
+                        Node::Quant { body: Box::new(Node::Group { name: None, body: Box::new(b.clone()) }), min: 0, max: None, lazy: false, braces: false },
+                    ];
+                    for g in groups {
+                        for z in [Node::Lit(0x61), Node::Lit(0x0A), Node::Dot, Node::Eol, Node::BackRef(0)] {
+                            nodes.push(Node::Cat(vec![g.clone(), z.clone()]));
+                            nodes.push(Node::Cat(vec![z, g.clone()]));
+                        }
+                    }
+                }
+            }
+        }
+        let mut out = vec![];
+        let mut seen = std::collections::HashSet::new();
+        for (k, n) in nodes.iter().enumerate() {
+            for bits in 0..8u32 {
+                for mode in [Mode::Legacy, if (k + bits as usize) % 4 == 0 { Mode::V } else { Mode::U }] {
+                    let fl = Fl { i: bits & 1 != 0, m: bits & 2 != 0, s: bits & 4 != 0, mode };
+                    let pat = Printer::print(n, mode);
+                    if seen.insert((pat.clone(), fl.text())) {
+                        out.push(Case { pat, flags: fl.text(), hay: String::new(), hay16: vec![], start: 0, x: serde_json::Value::Null });
+                    }
+                }
+            }
+        }
+        out
+    })
+}
+
+fn gen_flag_slice(src: &mut Src, _t: Tier) -> Case {
+    let v = flag_slice();
+    v[(src.raw() as usize).min(v.len() - 1)].clone()
+}
+
+fn check_flag_slice(case: &Case, l: &mut Local) -> Verdict {
+    static HAYS: std::sync::OnceLock<Vec<String>> = std::sync::OnceLock::new();
+    check_small_on(case, HAYS.get_or_init(|| all_strings(&[0x61, 0x41, 0x0A], 3)), l)
+}
+
+pub static VXF: Variant = Variant { name: "exhaustive_flag_slice", choice_len: 1, gen: gen_flag_slice, check: check_flag_slice };
+
 fn check_small(case: &Case, l: &mut Local) -> Verdict {
     static HAYS: std::sync::OnceLock<Vec<String>> = std::sync::OnceLock::new();
-    let hays = HAYS.get_or_init(|| all_strings(&[0x61, 0x62], 4));
+    check_small_on(case, HAYS.get_or_init(|| all_strings(&[0x61, 0x62], 4)), l)
+}
+
+fn check_small_on(case: &Case, hays: &[String], l: &mut Local) -> Verdict {
     let fl = Fl::parse(&case.flags);
     let re = match compile(&case.pat, fl, false) {
         Ok(r) => r,
@@ -371,7 +461,7 @@ fn check_small(case: &Case, l: &mut Local) -> Verdict {
             if got != want {
                 return Verdict::Fail(format!(
                     "on \"{}\" from {}: find_from = {} but ECMAScript semantics give {}",
-                    h,
+                    show_str(h),
                     s,
                     got.as_ref().map(|m| m.show()).unwrap_or_else(|| "no match".into()),
                     want.as_ref().map(|m| m.show()).unwrap_or_else(|| "no match".into())
@@ -392,19 +482,20 @@ pub static VS: Variant = Variant { name: "soup_match", choice_len: 100, gen: gen
 pub static VD: Variant = Variant { name: "dup_names", choice_len: 300, gen: gen_dup_names, check };
 
 pub fn variants() -> Vec<&'static Variant> {
-    vec![&V, &VT, &VS, &VD, &VX]
+    vec![&V, &VT, &VS, &VD, &VX, &VXF]
 }
 
 pub fn run(ctx: &Ctx) -> i32 {
     esref::selftest::ensure();
     ctx.run_list(&VX, small_slice(true));
+    ctx.run_list(&VXF, flag_slice());
     ctx.run_variant(&V, ctx.scale(400_000, 8_000_000));
     ctx.run_variant(&VT, ctx.scale(200_000, 4_000_000));
     ctx.run_variant(&VS, ctx.scale(400_000, 6_000_000));
     ctx.run_variant(&VD, ctx.scale(200_000, 3_000_000));
     ctx.finish(
         "exploration",
-        "(bounded-exhaustive) ALL patterns of a small grammar - atoms {a, b, ., [ab], [^a], \\1, ^, $, \\b}, 11 quantifier shapes (greedy and lazy), the six group kinds (capture, non-capture, (?=) (?<=) (?!) (?<!)) around a one- or two-atom body or alternative, optionally quantified, preceded or followed by an atom; every pair of level-1 items - x ALL haystacks in {a,b}^<=4 x starts 0 and 1; plus random ES patterns, valid by construction, over all 24 flag sets (i,m,s x none/u/v), inline modifiers, themed alphabets (ASCII, case-special, 1-4 byte, line terminators, white space, word/non-word) and themed shapes (nested empty-matchable quantifiers, lazy loops + backreferences, backreference inside its own group, captures in lookbehind, anchors under scoped m, counts at 0/1/2, scoped i); haystacks <= 8 (12) code points, random or sampled from the pattern's own language; every start offset. Also compilable token soup (the parser's special cases: legacy octal / \\c / \\u fallbacks, Annex B class ranges, reserved punctuators) and patterns with group names duplicated across alternatives and \\k references. Oracle: esref, an independent spec-shaped ECMAScript reference model (ES2025 22.2 on code-point input) re-validated on every run against a frozen corpus of V8 verdicts. Compared: start, end and every capture slot of find_from(..).next(). Non-trivial = at least two construct kinds beyond literals and a decisive search (a match, or a failed search that consumed input).",
+        "(bounded-exhaustive) ALL patterns of a small grammar - atoms {a, b, ., [ab], [^a], \\1, ^, $, \\b}, 11 quantifier shapes (greedy and lazy), the six group kinds (capture, non-capture, (?=) (?<=) (?!) (?<!)) around a one- or two-atom body or alternative, optionally quantified, preceded or followed by an atom; every pair of level-1 items - x ALL haystacks in {a,b}^<=4 x starts 0 and 1; a second slice for the flags - atoms {a, A, LF, ., [a], [^a], \\w, ^, $, \\b, \\B, \\1}, five quantifier shapes, every pair of items, the group kinds around an atom or a two-way alternative - under ALL 16 combinations of i, m, s x legacy/u (v for a quarter) x ALL haystacks over {a, A, LF} up to length 3 (200k pattern/flag combinations, 16M searches); plus random ES patterns, valid by construction, over all 24 flag sets (i,m,s x none/u/v), inline modifiers, themed alphabets (ASCII, case-special, 1-4 byte, line terminators, white space, word/non-word) and themed shapes (nested empty-matchable quantifiers, lazy loops + backreferences, backreference inside its own group, captures in lookbehind, anchors under scoped m, counts at 0/1/2, scoped i); haystacks <= 8 (12) code points, random or sampled from the pattern's own language; every start offset. Also compilable token soup (the parser's special cases: legacy octal / \\c / \\u fallbacks, Annex B class ranges, reserved punctuators) and patterns with group names duplicated across alternatives and \\k references. Oracle: esref, an independent spec-shaped ECMAScript reference model (ES2025 22.2 on code-point input) re-validated on every run against a frozen corpus of V8 verdicts. Compared: start, end and every capture slot of find_from(..).next(). Non-trivial = at least two construct kinds beyond literals and a decisive search (a match, or a failed search that consumed input).",
         &["esref (harness/src/esref) is the trusted base; its Unicode data are exported from V8/ICU (Unicode 17) and std, never from regress", "patterns on whose validity regress and esref disagree are C08's business and are skipped here (counted)", "fuel hook"],
     )
 }
